@@ -95,6 +95,21 @@ class Gen:
             return n
         raise RuntimeError("name space exhausted")
 
+    def lc_name(self, small=False):
+        """a reserved temporary-item name `.lc<N>` (the names the loader gives to the items it makes for string and
+        floating immediates): arbitrary N, so that they appear in the text in any order and with gaps"""
+        r = self.r
+        for _ in range(100):
+            if small or r.chance(5, 6):
+                n = ".lc%d" % (1 + r.below(9))
+            else:
+                n = ".lc" + r.choice(["", "0", "007", "12", "40", "4294967294", "4294967297", "18446744073709551617",
+                                      "99999999999999999999999"])
+            if n not in self.used_names:
+                self.used_names.add(n)
+                return n
+        return self.name(False)
+
     def int64(self):
         r = self.r
         k = r.below(10)
@@ -435,7 +450,7 @@ class Gen:
 
     def item_name(self, mod, must=False):
         if must or self.r.chance(3, 4):
-            n = self.name()
+            n = self.lc_name() if self.r.chance(1, 6) else self.name()
             mod["named"].append(n)
             return n
         return None
@@ -549,9 +564,19 @@ class Gen:
         its own bss/data items, calls to earlier functions"""
         r = self.r
         mod = dict(name=self.name(False), items=[], named=[], protos=[], callable=[], funcs=[], runs=[])
-        bss = dict(kind="bss", name=self.name(False), len=64)
-        dat = dict(kind="data", name=self.name(False), ty="i64", els=[r.next() & (2 ** 64 - 1) for _ in range(4)])
-        sdat = dict(kind="strdata", name=self.name(False), bytes=[r.below(256) for _ in range(7)] + [0])
+        # half of the modules name their data items like the loader's temporary items, in any order (descending
+        # half of the time, so that the last one is not the largest) and with gaps; the code below then has a
+        # string or a double immediate, for which loading the module makes a fresh `.lc<counter+1>` item
+        lc = r.chance(1, 2) and self.probe != "ref-shadowed-by-reg"
+        if lc:
+            dn = [self.lc_name(True) for _ in range(3)]
+            if r.chance(1, 2):
+                dn.sort(key=lambda n: -int(n[3:]))
+        else:
+            dn = [self.name(False) for _ in range(3)]
+        bss = dict(kind="bss", name=dn[0], len=64)
+        dat = dict(kind="data", name=dn[1], ty="i64", els=[r.next() & (2 ** 64 - 1) for _ in range(4)])
+        sdat = dict(kind="strdata", name=dn[2], bytes=[r.below(256) for _ in range(7)] + [0])
         mod["items"] += [bss, dat, sdat]
         mod["named"] += [bss["name"], dat["name"], sdat["name"]]
         shadow = self.want("ref-shadowed-by-reg")
@@ -577,6 +602,15 @@ class Gen:
             for n in regs[nargs:]:
                 body.append(("mov", [("r", n), ("i", r.below(50))]))
             ptr = regs[-1] if not (shadow and fi == 0) else regs[-2]
+            if lc and fi == 0:
+                if r.chance(1, 2):
+                    body.append(("mov", [("r", ptr), ("s", [48 + r.below(60), 0])]))
+                    body.append(("mov", [("r", regs[nargs]), ("m", "u8", 0, ptr, None, 1, None, None)]))
+                else:
+                    dreg = self.name(False)
+                    fn["locals"].append(("d", dreg))
+                    body.append(("dmov", [("r", dreg), ("d", struct.unpack("<Q", struct.pack("<d", r.below(4000) / 8.0))[0])]))
+                    body.append(("d2i", [("r", regs[nargs]), ("r", dreg)]))
             if shadow and fi == 0:
                 body.append(("mov", [("r", regs[-2]), ("ref", bss["name"])]))   # address of the bss item
                 body.append(("ret", [("r", regs[-2])] * nres))
@@ -900,7 +934,7 @@ class FreeForm:
         if k == "s":
             return self.string(o[1])
         if k == "l":
-            return "L%d" % o[1]
+            return self.lab(o[1])
         (_, ty, disp, base, index, scale, al, nal) = o
         s = ty + self.ws() + ":" + self.ws()
         if disp != 0 or (base is None and index is None) or self.r.chance(1, 3):
@@ -946,12 +980,27 @@ class FreeForm:
             parts.append("...")
         return self.sep().join(parts)
 
+    def lab(self, n):
+        """spelling of label n: any name will do, including the reserved `.lc<N>` family (the scanner runs every
+        label name through process_reserved_name)"""
+        if not self.lc_labels:
+            return "L%d" % n
+        if n not in self.labmap:
+            while True:
+                k = self.r.below(60)
+                if k not in self.labmap.values():
+                    break
+            self.labmap[n] = k
+        return ".lc%d" % self.labmap[n]
+
     def label_prefix(self, n):
         return "" if n is None else n + self.ws() + ":" + (self.ws() if self.r.chance(3, 4) else "\n")
 
     def render(self, mods):
         r = self.r
         out = ""
+        self.lc_labels = r.chance(1, 4)
+        self.labmap = {}
         for m in mods:
             out += m["name"] + self.ws() + ":" + self.ws() + "module" + self.eol()
             for it in m["items"]:
@@ -986,7 +1035,7 @@ class FreeForm:
                 elif k == "ref":
                     out += self.label_prefix(it["name"]) + ind + "ref" + self.ws(True) + it["item"] + self.sep() + self.num(it["disp"]) + self.eol()
                 elif k == "lref":
-                    ops = ["L%d" % it["l1"]] + (["L%d" % it["l2"]] if it["l2"] is not None else [])
+                    ops = [self.lab(it["l1"])] + ([self.lab(it["l2"])] if it["l2"] is not None else [])
                     if it["disp"] != 0 or r.chance(1, 3):
                         ops.append(self.num(it["disp"]))
                     out += self.label_prefix(it["name"]) + ind + "lref" + self.ws(True) + self.sep().join(ops) + self.eol()
@@ -1008,7 +1057,7 @@ class FreeForm:
                     pend = []
                     for ins in it["body"]:
                         if ins[0] == "label":
-                            pend.append("L%d" % ins[1])
+                            pend.append(self.lab(ins[1]))
                             continue
                         pre = ""
                         for l in pend:
